@@ -399,7 +399,8 @@ namespace c11
       for(int i = 0; i < np; ++i)
       {
         J pd = J::obj(); auto part = gen_part<M>(t, c, *m, vcls, pd);
-        std::string nm = (i == 0 && t.flag(1, 12)) ? std::string() : "g" + gen_name(t, i, true);
+        std::string bn = gen_name(t, i, true);   // internal names ('_' first) are skipped by the writer unless asked for
+        std::string nm = (i == 0 && t.flag(1, 12)) ? std::string() : (bn[0] == '_' ? "_g" + bn.substr(1) : "g" + bn);
         std::string cn; if(!chart_names.empty() && t.flag(1, 2)) cn = chart_names[(size_t)t.range(0, (int)chart_names.size() - 1)];
         pd.set("name", nm); pd.set("chart", cn);
         if(nm.empty()) c.label("name:empty"); if(!nm.empty() && nm[0] == '_') c.label("name:internal"); if(!cn.empty()) c.label("part:with-chart");
